@@ -61,7 +61,7 @@ def msh_line(version, name, ec=None, ctrl='1', msh9=None, extra='', vid=False):
                                                    m12]) + extra
 
 
-def emit(node, rng, mode='required', max_rep=1, depth=0, path=()):
+def emit(node, rng, mode='required', max_rep=1, depth=0, path=(), wide=False):
     """-> [Line].  mode: required | all | random ; repetitions of repeatable children up to max_rep.
     A group is repeated only when that is expressible: a new repetition is recognisable when the group's
     first emitted member is non-repeatable (max == 1)."""
@@ -87,7 +87,7 @@ def emit(node, rng, mode='required', max_rep=1, depth=0, path=()):
             prev_names = None
             for _ in range(n):
                 gpath = path + ((c.name, r),)
-                sub = emit(c, rng, mode, max_rep, depth + 1, gpath)
+                sub = emit(c, rng, mode, max_rep, depth + 1, gpath, wide)
                 if not sub and mn >= 1:
                     # a required group whose members are all optional: ER7 cannot express an empty group, so a
                     # conforming instance holds at least its first member
@@ -99,9 +99,26 @@ def emit(node, rng, mode='required', max_rep=1, depth=0, path=()):
                     # group that the previous repetition already holds: its recurrence is what opens the new repetition
                     first = sub[0]
                     member = [x for x in c.children if x.kind == 'SEG' and x.name == first.seg]
-                    if first.path != gpath or not member or member[0].card[1] != 1 or first.seg not in prev_names:
+                    direct = first.path == gpath and member and member[0].card[1] == 1 and first.seg in prev_names
+                    nested = False
+                    if wide and not direct and len(first.path) > len(gpath) and first.path[:len(gpath)] == gpath:
+                        # (wide) the repetition starts inside nested groups: it is still recognisable when every group on the
+                        # way down and the segment itself are non-repeatable and the previous repetition holds that segment
+                        # at the same place - the recurrence of a non-repeatable member, one or more levels down
+                        cur, ok = c, True
+                        for gname, _ in first.path[len(gpath):]:
+                            nxt = [x for x in cur.children if x.kind == 'GRP' and x.name == gname]
+                            if not nxt or nxt[0].card[1] != 1:
+                                ok = False
+                                break
+                            cur = nxt[0]
+                        seg_ = [x for x in cur.children if x.kind == 'SEG' and x.name == first.seg] if ok else []
+                        rel = tuple(g for g, _ in first.path[len(gpath):])
+                        nested = bool(seg_) and seg_[0].card[1] == 1 and (first.seg, rel) in prev_nested
+                    if not direct and not nested:
                         continue
                 prev_names = {l.seg for l in sub if l.path == gpath}
+                prev_nested = {(l.seg, tuple(g for g, _ in l.path[len(gpath):])) for l in sub}
                 out.extend(sub)
                 r += 1
     return out
